@@ -113,6 +113,10 @@ def limit_fn(drv, logic, argstr, seed, base):
 
 # --- time limit ---------------------------------------------------------------
 
+class ClockBound(Exception):
+    'the run reads the clock more often than the stub provides instants: outside the stated bound'
+
+
 class SymClock:
     """Stub for tools.timing._nowms: arbitrary non-decreasing instants.  The
     instants t0 <= t1 <= ... are declared as preconditions of the explorer."""
@@ -124,7 +128,7 @@ class SymClock:
 
     def __call__(self):
         if self.n >= self.nmax:
-            raise RuntimeError('clock stub exhausted')
+            raise ClockBound(f'more than {self.nmax} clock readings')
         v = self.drv.int(f't{self.n}')
         self.n += 1
         return v
@@ -307,6 +311,10 @@ def unit(arg):
             out['bad'].append(dict(argstr=argstr, error=f'harness: {type(e).__name__}: {e}', witness={},
                                    picks=[], extra=extra))
             continue
+        if kind == 'time' and any(p.kind != 'ok' and isinstance(p.value, ClockBound) for p in paths):
+            # outside the bound on clock readings (stated in the evidence): nothing is claimed
+            out['skipped_clock'] = out.get('skipped_clock', 0) + 1
+            continue
         st = ex.stats()
         out['units'] += 1
         out['paths'] += st['paths']
@@ -370,7 +378,7 @@ def run(ctx):
                           budget * 2, (3 if ctx.quick else 4, with_arg)))
     with mp.Pool(ctx.jobs) as pool_:
         results = pool_.map(unit, units, chunksize=1)
-    paths = trans = queries = nunits = 0
+    paths = trans = queries = nunits = skipped_long = skipped_clock = 0
     st_time = 0.0
     samples = []
     for r in results:
@@ -379,6 +387,8 @@ def run(ctx):
         queries += r['queries']
         st_time += r['solver_time']
         nunits += r['units']
+        skipped_long += r.get('skipped_long', 0)
+        skipped_clock += r.get('skipped_clock', 0)
         samples += r['samples'][:1]
         for a in r['inexhausted']:
             rep.inconclusive.append(f'{r["kind"]} {r["logic"]} {a}: not exhausted')
@@ -396,6 +406,8 @@ def run(ctx):
     rep.coverage = dict(
         states=paths, transitions=trans, traces_validated_against_impl=0,
         samples=list(kinds.values())[:3], units=nunits,
+        outside_bounds=dict(arguments_with_longer_proofs=skipped_long,
+                            arguments_with_more_than_2500_clock_readings=skipped_clock),
         bounds=dict(step_limit='k over all integers, one class per prefix; 13 arguments per logic (quick), '
                                'proofs of natural length <= 40 (quick) / 60 steps; thorough: 33 arguments per logic',
                     time_limit='T over all integers; clock = arbitrary non-decreasing instants; proofs <= 60 steps; '
@@ -438,7 +450,7 @@ def replay(data):
                     w['T'] = 1
                     try:
                         r = time_fn(ReplayDriver([], w), logic, argstr, seed, base, nclock, True)
-                    except RuntimeError:
+                    except ClockBound:
                         break
                     if r[0] == 'timeout-models':
                         return False, f'time {logic} {argstr}: timeout during model building at reading {c}'
